@@ -42,6 +42,7 @@ MUTANTS = {
         ('message_counted_twice', r'self\.memory_usage_bytes \+= message\.len\(\);\n(\s+)self\.messages\.push_back\(message\);', r'self.memory_usage_bytes += message.len(); self.memory_usage_bytes += message.len();\n\1self.messages.push_back(message);'),
     ],
     'U9': [
+        ('sliced_message_joins_the_small_batch', r'(let start_index = \*next_slice_to_send;)', r'(*small_messages).push((message_id, message.clone())); \1'),
         ('resend_early', r'if current_time - \*last_sent < resend_time \{', 'if current_time - *last_sent > resend_time {'),
         ('acked_slice_resent', r'if acked\[i\] \{', 'if false {'),
         ('budget_not_charged_small', r'\*available_bytes -= message\.len\(\) as u64;', ''),
@@ -109,6 +110,7 @@ MUTANTS = {
         ('discard_with_old_time', r'discard_all_summary\(&mut self\.receive_unreliable_channels, self\.current_time\);', 'discard_all_summary(&mut self.receive_unreliable_channels, Duration::ZERO);'),
     ],
     'U17': [
+        ('step_drops_carried_ids', r'lemma_rloop_step_carried\(pre\.packets, post\.packets, pre\.small, post\.small, pre\.seq, channel_id, message_id, um, current_time, resend_time, m0\);', ''),
         ('final_flush_labelled_with_channel_zero', r'channel_id: self\.channel_id,(\s+messages: std::mem::take\(&mut small_messages\),)', r'channel_id: 0,\1'),
         ('final_flush_dropped', r'if !small_messages\.is_empty\(\) \{', 'if false {'),
         ('flush_sequence_not_advanced', r'(messages: std::mem::take\(&mut small_messages\),\s*\}\);\s*)\*packet_sequence \+= 1;', r'\1'),
